@@ -216,7 +216,7 @@ func c18Check(r *core.Run, ids []builtID, ent *TaskEntropy, nStreams int, ctx ma
 			return
 		}
 		if seen[b.id] {
-			r.Fail("unique", "C18/duplicate-id/"+b.builder, c)
+			r.Fail("unique", "C18/duplicate-id", c)
 			return
 		}
 		seen[b.id] = true
@@ -262,7 +262,7 @@ func c18Check(r *core.Run, ids []builtID, ent *TaskEntropy, nStreams int, ctx ma
 			servedMu.Unlock()
 		}
 		if !found {
-			r.Fail("provenance", "C18/id-bits-not-from-served-entropy/"+b.builder, c)
+			r.Fail("provenance", "C18/id-bits-not-from-served-entropy", c)
 			return
 		}
 	}
